@@ -44,6 +44,7 @@ def showCR (x : CR) : String :=
   | .body b =>
     let rem := if b.chunked then "x" else toString b.remaining
     s!"ph=body {pos} ne=0 sync={sync b.buf} win={win} rem={rem} cur={b.cur} off={b.off} ev={if b.evRead then 1 else 0}"
+  | .cont100 b => s!"ph=c100 {pos} ne=0 sync={sync b.buf} win={win}"
   | .footers s _ => s!"ph=foot {pos} ne=0 sync={sync s.buf} win={win}"
   | .reqDone buf _ _ => s!"ph=full {pos} ne=0 sync={sync buf} win={win}"
   | .error (.reply code) => s!"ph=err code={code}"
@@ -54,16 +55,34 @@ def showCR (x : CR) : String :=
 
 open Mhd.ConnRead (mkCfg)
 
+/-- scripted access handler: take pattern (`n` = MHD_NO), first call (`c` go on, `r` early reply, `n` MHD_NO),
+    final call (`r` reply, `n` MHD_NO) -/
+structure Script where
+  pat : List (Option Nat) := []
+  first : Mhd.ConnRead.HRes := .cont
+  final : Bool := true
+
 structure DS where
   cm : CM
   cr : Mhd.ConnRead.CR
-  pat : List Nat
+  pat : Script
 
-def parsePat (s : String) : Option (List Nat) :=
-  (s.splitOn ",").mapM (·.toNat?)
+def parsePat (s : String) : Option (List (Option Nat)) :=
+  if s == "-" then some [] else
+  (s.splitOn ",").mapM (fun t => if t == "n" then some none else t.toNat?.map some)
 
-def stepCR (x : Mhd.ConnRead.CR) (pat : List Nat) (ws : List String) : Option (Mhd.ConnRead.CR × List Nat × List String) :=
-  let ini (ps inc lvl : String) (pt : List Nat) :=
+def parseBeh (s : String) : Option (Mhd.ConnRead.HRes × Bool) :=
+  match s.toList with
+  | [f, l] =>
+    let fr : Option Mhd.ConnRead.HRes := if f == 'c' then some .cont else if f == 'r' then some .reply else if f == 'n' then some .no else none
+    let lr : Option Bool := if l == 'r' then some true else if l == 'n' then some false else none
+    match fr, lr with
+    | some a, some b => some (a, b)
+    | _, _ => none
+  | _ => none
+
+def stepCR (x : Mhd.ConnRead.CR) (pat : Script) (ws : List String) : Option (Mhd.ConnRead.CR × Script × List String) :=
+  let ini (ps inc lvl : String) (pt : Script) :=
     match ps.toNat?, inc.toNat?, lvl.toInt? with
     | some p, some i, some l =>
       if 64 ≤ p ∧ p < 2 ^ 40 ∧ i < 2 ^ 40 ∧ -8 ≤ l ∧ l ≤ 8 then
@@ -72,17 +91,21 @@ def stepCR (x : Mhd.ConnRead.CR) (pat : List Nat) (ws : List String) : Option (M
       else some (x, pat, ["bad-op"])
     | _, _, _ => some (x, pat, ["bad-op"])
   match ws with
-  | ["crinit", ps, inc, lvl] => ini ps inc lvl []
+  | ["crinit", ps, inc, lvl] => ini ps inc lvl {}
   | ["crinit", ps, inc, lvl, pt] =>
     match parsePat pt with
-    | some l => ini ps inc lvl l
+    | some l => ini ps inc lvl { pat := l }
     | none => some (x, pat, ["bad-op"])
+  | ["crinit", ps, inc, lvl, pt, beh] =>
+    match parsePat pt, parseBeh beh with
+    | some l, some (f, fin) => ini ps inc lvl { pat := l, first := f, final := fin }
+    | _, _ => some (x, pat, ["bad-op"])
   | ["crfill", v] =>
     -- harness only: the byte written behind the fill level; the model never looks there
     if v == "off" || (match v.toNat? with | some n => n < 256 | none => false) then some (x, pat, ["ok"]) else some (x, pat, ["bad-op"])
   | ["crfeed", hex] =>
     match bytesOfHex hex with
-    | some bs => let x1 := Mhd.ConnRead.feed (mkCfg x.lvl pat) x bs; some (x1, pat, [showCR x1])
+    | some bs => let x1 := Mhd.ConnRead.feed (mkCfg x.lvl pat.pat pat.first pat.final) x bs; some (x1, pat, [showCR x1])
     | none => some (x, pat, ["bad-op"])
   | _ => none
 
@@ -127,4 +150,4 @@ def stepLine (d : DS) (ws : List String) : DS × List String :=
   | some (x, pt, out) => ({ d with cr := x, pat := pt }, out)
   | none => let (c, out) := stepLineCM d.cm ws; ({ d with cm := c }, out)
 
-def main : IO Unit := runEngine ({ cm := init 64 64 16, cr := Mhd.ConnRead.init 64 64 16 0, pat := [] } : DS) stepLine
+def main : IO Unit := runEngine ({ cm := init 64 64 16, cr := Mhd.ConnRead.init 64 64 16 0, pat := {} } : DS) stepLine
